@@ -15,7 +15,8 @@ shape("OperationContext", operation_id="str", agent_id="str", priority="int", ph
       metadata="dict:str,any")
 shape("CellCycleController", resources="dict:str,obj:ResourceLock", active_operations="dict:str,obj:OperationContext",
       dependency_graph="obj:DependencyGraph", checkpoints="any")
-shape("CoordinationSystem", controller="obj:CellCycleController", watchdog="obj:Watchdog", priority_manager="any")
+shape("CoordinationSystem", controller="obj:CellCycleController", watchdog="obj:Watchdog", priority_manager="obj:PriorityInheritance")
+shape("PriorityInheritance")
 shape("Watchdog", events="list:any", deadlock_strategy="str")
 shape("CoordinationResult", operation_id="str", success="bool", phase_reached="enum:Phase", result="any", error="opt:str",
       duration_ms="real")
@@ -84,7 +85,9 @@ REL_SPEC = {
                  # ... and a resource the operation does not track is exactly as it was (owner and hold count)
                  "implies(not in_visit(r0) and r0 in self.resources, self.resources[r0].owner == old(self).resources[r0].owner and "
                  "self.resources[r0].hold_count == old(self).resources[r0].hold_count)",
-                 "in_visit(r0) == (r0 in old(ctx).acquired_resources)"],
+                 "in_visit(r0) == (r0 in old(ctx).acquired_resources)",
+                 # releasing never hands a resource to anybody: an owner is kept or cleared
+                 "implies(r0 in self.resources, self.resources[r0].owner is None or self.resources[r0].owner == old(self).resources[r0].owner)"],
              "step": {
                  # per resource the operation tracked: after its turn it is neither owned by the operation nor tracked any more
                  "each-tracked-resource-fully-released": "implies(resource_id in self.resources, self.resources[resource_id].owner != ctx.operation_id)",   # tracked lock IS the registered one (alias)
@@ -104,29 +107,36 @@ contract(FC + "::CellCycleController.release_all_resources", "C14",
              "no-tracked-resource-is-still-owned": "implies(r0 in old(ctx).acquired_resources and r0 in self.resources, self.resources[r0].owner != ctx.operation_id)",
              "untracked-resources-are-untouched": "implies(r0 not in old(ctx).acquired_resources and r0 in self.resources, "
                                                   "self.resources[r0].owner == old(self).resources[r0].owner and "
-                                                  "self.resources[r0].hold_count == old(self).resources[r0].hold_count)"})
+                                                  "self.resources[r0].hold_count == old(self).resources[r0].hold_count)",
+             "owners-are-kept-or-cleared": "implies(r0 in self.resources, self.resources[r0].owner is None or self.resources[r0].owner == old(self).resources[r0].owner)"})
 
 # complete / abort: release_all_resources is INLINED here (its loop is cut with the same specification), so the registry-wide clauses are
 # postconditions of the two operations that end a coordinated operation -- for an arbitrary resource id r0
 contract(FC + "::CellCycleController.complete_operation", "C14",
-         params={"ctx": "obj:OperationContext"}, pre_state=ALIAS, raises=[], ghost_params={"r0": "str"},
+         params={"ctx": "obj:OperationContext"}, pre_state=ALIAS, raises=[], ghost_params={"r0": "str", "a0": "str"},
          callbacks=GRAPH, loops={REL_LOOP: REL_SPEC},
          inline=False, returns="obj:OperationResult", modifies=["self.active_operations", "ctx.acquired_resources", "self.resources[*]"],
          ensures={"no-tracked-resource-is-still-owned": "implies(r0 in old(ctx).acquired_resources and r0 in self.resources, self.resources[r0].owner != ctx.operation_id)",
                   "untracked-resources-are-untouched": "implies(r0 not in old(ctx).acquired_resources and r0 in self.resources, "
                                                        "self.resources[r0].owner == old(self).resources[r0].owner and "
                                                        "self.resources[r0].hold_count == old(self).resources[r0].hold_count)",
+                  "owners-are-kept-or-cleared": "implies(r0 in self.resources, self.resources[r0].owner is None or self.resources[r0].owner == old(self).resources[r0].owner)",
                   "no-longer-active": "ctx.operation_id not in self.active_operations",
+                  "other-operations-stay-listed": "implies(a0 != ctx.operation_id, (a0 in self.active_operations) == (a0 in old(self).active_operations) and "
+                                                  "implies(a0 in self.active_operations, self.active_operations[a0] is old(self).active_operations[a0]))",
                   "reports-success": "result.success is True"})
 contract(FC + "::CellCycleController.abort_operation", "C14",
-         params={"ctx": "obj:OperationContext"}, pre_state=ALIAS, raises=[], ghost_params={"r0": "str"},
+         params={"ctx": "obj:OperationContext"}, pre_state=ALIAS, raises=[], ghost_params={"r0": "str", "a0": "str"},
          callbacks=GRAPH, loops={REL_LOOP: REL_SPEC},
          inline=False, returns="obj:OperationResult", modifies=["self.active_operations", "ctx.acquired_resources", "self.resources[*]"],
          ensures={"no-tracked-resource-is-still-owned": "implies(r0 in old(ctx).acquired_resources and r0 in self.resources, self.resources[r0].owner != ctx.operation_id)",
                   "untracked-resources-are-untouched": "implies(r0 not in old(ctx).acquired_resources and r0 in self.resources, "
                                                        "self.resources[r0].owner == old(self).resources[r0].owner and "
                                                        "self.resources[r0].hold_count == old(self).resources[r0].hold_count)",
+                  "owners-are-kept-or-cleared": "implies(r0 in self.resources, self.resources[r0].owner is None or self.resources[r0].owner == old(self).resources[r0].owner)",
                   "no-longer-active": "ctx.operation_id not in self.active_operations",
+                  "other-operations-stay-listed": "implies(a0 != ctx.operation_id, (a0 in self.active_operations) == (a0 in old(self).active_operations) and "
+                                                  "implies(a0 in self.active_operations, self.active_operations[a0] is old(self).active_operations[a0]))",
                   "reports-failure": "result.success is False"})
 
 # ------------------------------------------------------------------ the coordinated operation
@@ -176,10 +186,81 @@ contract(FS + "::CoordinationSystem.execute_operation", "C14",
                                                         "self.controller.resources[r0].hold_count == old(self).controller.resources[r0].hold_count)",
          })
 
+# manual kill (and, through it, CoordinationSystem.kill_operation): abort_operation is used through its contract, so the registry-wide clause is a
+# postcondition here too -- under the two registry invariants the controller maintains but which are assumed here (listed by the scan):
+# operations are listed under their own id, and what an operation owns it tracks
 contract(FW + "::Watchdog.manual_kill", "C14",
-         params={"controller": "obj:CellCycleController"},
-         callbacks={"CellCycleController.abort_operation": {"returns": "obj:OperationResult", "raises": ()}},
-         ensures={"kills-through-abort": "implies(operation_id in old(controller).active_operations, calls_to('abort_operation') == 1)"})
+         params={"controller": "obj:CellCycleController"}, ghost_params={"r0": "str"}, raises=[],
+         pre_state={"alias_values": {"controller.active_operations[operation_id].acquired_resources": "controller.resources"}},
+         requires=["implies(operation_id in controller.active_operations, controller.active_operations[operation_id].operation_id == operation_id)",
+                   "implies(operation_id in controller.active_operations and r0 in controller.resources and controller.resources[r0].owner == operation_id, "
+                   "r0 in controller.active_operations[operation_id].acquired_resources)"],
+         ensures={"kills-through-abort": "implies(operation_id in old(controller).active_operations, calls_to('abort_operation') == 1)",
+                  "killed-operation-owns-nothing": "implies(operation_id in old(controller).active_operations and r0 in controller.resources, "
+                                                   "controller.resources[r0].owner != operation_id)",
+                  "killed-operation-is-no-longer-active": "operation_id not in controller.active_operations",
+                  "unknown-operation-changes-nothing": "implies(operation_id not in old(controller).active_operations, result is None and calls_to('abort_operation') == 0)"})
+
+
+contract(FS + "::CoordinationSystem.kill_operation", "C14", ghost_params={"r0": "str"}, raises=[],
+         pre_state={"alias_values": {"self.controller.active_operations[operation_id].acquired_resources": "self.controller.resources"}},
+         requires=["implies(operation_id in self.controller.active_operations, self.controller.active_operations[operation_id].operation_id == operation_id)",
+                   "implies(operation_id in self.controller.active_operations and r0 in self.controller.resources and self.controller.resources[r0].owner == operation_id, "
+                   "r0 in self.controller.active_operations[operation_id].acquired_resources)"],
+         ensures={"killed-operation-owns-nothing": "implies(operation_id in old(self).controller.active_operations and r0 in self.controller.resources, "
+                                                   "self.controller.resources[r0].owner != operation_id)",
+                  "killed-operation-is-no-longer-active": "operation_id not in self.controller.active_operations"})
+
+# shutdown: every operation that was active is aborted; for an ARBITRARY operation id op0 that was active and an ARBITRARY resource id r0: afterwards r0 is not
+# owned by op0 (releasing only keeps or clears owners, so a later abort cannot hand a resource back to an operation already dealt with)
+SHUT_LOOP = "for op_id in list(self.controller.active_operations.keys())"
+contract(FS + "::CoordinationSystem.shutdown", "C14", ghost_params={"r0": "str", "op0": "str"}, raises=[],
+         callbacks={"PriorityInheritance.clear_all": {"returns": "none", "raises": ()}},
+         options={"callee_instances": {"CellCycleController.abort_operation": [{"a0": "op0"}]}},
+         requires=["implies(op0 in self.controller.active_operations, self.controller.active_operations[op0].operation_id == op0)",
+                   "implies(op0 in self.controller.active_operations and r0 in self.controller.resources and self.controller.resources[r0].owner == op0, "
+                   "r0 in self.controller.active_operations[op0].acquired_resources)"],
+         loops={SHUT_LOOP: {
+             "invariant": [
+                 "implies(in_visit(op0) and visit_index(op0) < _k and r0 in self.controller.resources, self.controller.resources[r0].owner != op0)",
+                 "implies(in_visit(op0) and visit_index(op0) >= _k, op0 in self.controller.active_operations and "
+                 "self.controller.active_operations[op0].operation_id == op0 and "
+                 "implies(r0 in self.controller.resources and self.controller.resources[r0].owner == op0, r0 in self.controller.active_operations[op0].acquired_resources))",
+                 "in_visit(op0) == (op0 in old(self).controller.active_operations)"],
+             "instances": [{"op0": "op_id"}],
+             "property_level": ["implies(in_visit(op0) and visit_index(op0) < _k and r0 in self.controller.resources, self.controller.resources[r0].owner != op0)"],
+         }},
+         ensures={"no-resource-is-owned-by-an-operation-that-was-active": "implies(op0 in old(self).controller.active_operations and r0 in self.controller.resources, "
+                                                                          "self.controller.resources[r0].owner != op0)"})
+
+
+# watchdog kill: every operation the watchdog decides to terminate (whatever check() returns: timeouts, starvation, deadlock victims) is aborted through
+# abort_operation's contract.  For an ARBITRARY event position j, operation id op0 = events[j].operation_id and resource id r0: afterwards r0 is not owned by op0.
+shape("ApoptosisEvent", operation_id="str", agent_id="str", reason="enum:ApoptosisReason", details="str", timestamp="datetime")
+EV_LOOP = "for event in events"
+contract(FW + "::Watchdog.execute", "C14", params={"controller": "obj:CellCycleController"}, ghost_params={"r0": "str", "op0": "str", "j": "int"}, raises=[],
+         callbacks={"Watchdog.check": {"returns": "list:obj:ApoptosisEvent", "raises": ()}},
+         options={"callee_instances": {"CellCycleController.abort_operation": [{"a0": "op0"}]}},
+         requires=["implies(op0 in controller.active_operations, controller.active_operations[op0].operation_id == op0)",
+                   "implies(op0 in controller.active_operations and r0 in controller.resources and controller.resources[r0].owner == op0, "
+                   "r0 in controller.active_operations[op0].acquired_resources)"],
+         loops={EV_LOOP: {
+             "invariant": [
+                 # an operation whose event has been handled either was not active (nothing to do) or owns nothing any more
+                 "implies(0 <= j and j < _k and events[j].operation_id == op0 and op0 in old(controller).active_operations and r0 in controller.resources, "
+                 "controller.resources[r0].owner != op0)",
+                 # an operation still listed is listed under its own id and tracks what it owns
+                 "implies(op0 in controller.active_operations, op0 in old(controller).active_operations and controller.active_operations[op0].operation_id == op0 and "
+                 "implies(r0 in controller.resources and controller.resources[r0].owner == op0, r0 in controller.active_operations[op0].acquired_resources))",
+                 # an operation that is no longer listed was aborted here (so it owns nothing) or never was listed
+                 "implies(op0 in old(controller).active_operations and op0 not in controller.active_operations and r0 in controller.resources, "
+                 "controller.resources[r0].owner != op0)"],
+             "instances": [{"op0": "event.operation_id"}],
+             "property_level": ["implies(0 <= j and j < _k and events[j].operation_id == op0 and op0 in old(controller).active_operations and r0 in controller.resources, "
+                                "controller.resources[r0].owner != op0)"],
+         }},
+         ensures={"terminated-operations-own-nothing": "implies(0 <= j and j < len(result) and result[j].operation_id == op0 and op0 in old(controller).active_operations "
+                                                       "and r0 in controller.resources, controller.resources[r0].owner != op0)"})
 
 
 def native_replay(rep):
